@@ -870,6 +870,15 @@ func (sa *Application) deallocateAsk(ask *Allocation) (*resources.Resource, erro
 	// update the pending of the queue with the same delta
 	sa.queue.incPendingResource(delta)
 
+	// the application has an outstanding ask again: like for a new ask a completing application returns to running
+	if sa.IsCompleting() {
+		if err := sa.HandleApplicationEvent(RunApplication); err != nil {
+			log.Log(log.SchedApplication).Warn("Application state change failed while returning an ask to pending",
+				zap.String("applicationID", sa.ApplicationID),
+				zap.Error(err))
+		}
+	}
+
 	return delta, nil
 }
 
